@@ -181,6 +181,18 @@ def sampling(tier, rng, rep):
                 A2 = h.TangentVector(pb, va.copy()).angle(h.TangentVector(pb, vb.copy()))
                 if not (abs(np.cosh(a) - (np.cosh(b) * np.cosh(c) - np.sinh(b) * np.sinh(c) * np.cos(A2))) <= 1e-6 * np.cosh(a)):
                     rep.fail("law_of_cosines", f"tangent vectors given as {nm_}: angle {A2} (from unit tangents: {A})", {**inp, "tangent_data": nm_})
+            # the raw-vector route (hyperbolic.timelike_to) for representatives of either sign and any scale, oriented or not
+            hp2 = np.asarray(p.coords("hyperboloid"), dtype=float)
+            for cf in (1.0, -1.0, 2.5, -0.4):
+                for fo in (False, True):
+                    Mt = h.timelike_to((cf * hp2).copy(), force_oriented=fo)
+                    img_t = np.asarray((Mt @ h.Point.get_origin(n)).coords("klein"), dtype=float)
+                    Mm = np.asarray(Mt.proj_data, dtype=float)
+                    Jn = spec.J(n + 1)
+                    if not np.all(np.abs(img_t - kp) <= 1e-7):
+                        rep.fail("origin_to_hits_point", f"timelike_to({cf} * x, force_oriented={fo}) sends the origin to {img_t.tolist()}, the point is {kp.tolist()}", {**inp, "factor": cf, "force_oriented": fo}); break
+                    if not np.all(np.abs(Mm @ Jn @ Mm.T - Jn) <= 1e-7 * (1 + np.max(np.abs(Mm)) ** 2)):
+                        rep.fail("origin_to_is_an_isometry", f"timelike_to({cf} * x, force_oriented={fo})", {**inp, "factor": cf}); break
             M0 = p.origin_to()
             if not np.all(np.abs((M0 @ h.Point.get_origin(n)).coords("klein") - kp) <= 1e-7):
                 rep.fail("origin_to_hits_point", "", inp)
